@@ -6,6 +6,7 @@ import (
 	"fmt"
 	"io"
 	"sync"
+	"sync/atomic"
 	"time"
 
 	"github.com/renbou/grpcbridge/grpcadapter"
@@ -20,6 +21,10 @@ type client struct {
 	// because both v1 and v1alpha are exactly the same, so messages for them can be interchanged.
 	stream  grpcadapter.ClientStream
 	timeout time.Duration
+	// failed is set once a call on the stream has returned an error (including a timeout).
+	// The stream is closed at that point, and the failed call can still be finishing in the background,
+	// so no more calls must be made on the stream.
+	failed atomic.Bool
 }
 
 func connectClient(timeout time.Duration, conn grpcadapter.ClientConn, method string) (*client, error) {
@@ -38,10 +43,14 @@ func (c *client) close() {
 	c.stream.CloseSend()
 
 	// Close the reflection stream gracefully when possible, to avoid spurious errors on target servers.
-	ctx, cancel := context.WithTimeout(context.Background(), c.timeout)
-	defer cancel()
+	// A stream on which a call has already failed is closed, and reading from it again could run concurrently
+	// with the failed read which is still returning, leaving one of the two blocked forever.
+	if !c.failed.Load() {
+		ctx, cancel := context.WithTimeout(context.Background(), c.timeout)
+		defer cancel()
 
-	_ = c.stream.Recv(ctx, new(reflectionpb.ServerReflectionResponse))
+		_ = c.stream.Recv(ctx, new(reflectionpb.ServerReflectionResponse))
+	}
 
 	c.stream.Close()
 }
@@ -63,6 +72,7 @@ func (c *client) listServiceNames() ([]string, error) {
 	isEOF := errors.Is(err, io.EOF)
 
 	if err != nil && !isEOF {
+		c.failed.Store(true)
 		return nil, fmt.Errorf("sending ListServices request: %w", err)
 	}
 
@@ -221,6 +231,7 @@ func (c *client) sendTimeout(ctx context.Context, req *reflectionpb.ServerReflec
 	defer cancel()
 
 	if err := c.stream.Send(ctx, req); err != nil {
+		c.failed.Store(true)
 		// wrapped by the caller
 		return err
 	}
@@ -237,6 +248,7 @@ func (c *client) recvTimeout(ctx context.Context, resp *reflectionpb.ServerRefle
 
 func (c *client) recv(ctx context.Context, resp *reflectionpb.ServerReflectionResponse) error {
 	if err := c.stream.Recv(ctx, resp); err != nil {
+		c.failed.Store(true)
 		// wrapped by the caller
 		return err
 	} else if errRespWrapper, ok := resp.MessageResponse.(*reflectionpb.ServerReflectionResponse_ErrorResponse); ok {
